@@ -1,4 +1,5 @@
 #![recursion_limit = "256"]
+#![allow(unexpected_cfgs)]
 #![allow(clippy::many_single_char_names, clippy::module_inception)]
 
 pub mod keywords;
@@ -6,6 +7,8 @@ pub mod keywords;
 pub mod utils;
 pub(crate) use keywords::*;
 pub(crate) use utils::*;
+#[cfg(sv_parser_verif)]
+pub mod verif;
 
 mod tests;
 
@@ -81,15 +84,34 @@ impl HasTracableInfo for SpanInfo {
     }
 }
 
+#[cfg(not(sv_parser_verif))]
 impl HasExtraState<bool> for SpanInfo {
     fn get_extra_state(&self) -> bool {
         in_directive()
     }
 }
 
+#[cfg(sv_parser_verif)]
+impl HasExtraState<verif::Extra> for SpanInfo {
+    fn get_extra_state(&self) -> verif::Extra {
+        verif::Extra {
+            in_directive: in_directive(),
+            info: self.recursive_info,
+        }
+    }
+}
+
 // -----------------------------------------------------------------------------
 
+#[cfg(not(sv_parser_verif))]
 nom_packrat::storage!(AnyNode, bool, 1024);
+
+#[cfg(sv_parser_verif)]
+thread_local!(
+    pub(crate) static PACKRAT_STORAGE: core::cell::RefCell<verif::Memo> = {
+        core::cell::RefCell::new(verif::Memo::new())
+    }
+);
 
 pub fn sv_parser(s: Span) -> IResult<Span, SourceText> {
     init();
@@ -117,6 +139,8 @@ pub fn pp_parser(s: Span) -> IResult<Span, PreprocessorText> {
 }
 
 fn init() {
+    #[cfg(sv_parser_verif)]
+    verif::step(verif::SITE_INIT);
     nom_packrat::init!();
     clear_directive();
     clear_version();
